@@ -21,7 +21,13 @@ fn base_rules() -> Vec<RuleSrc> {
         RuleSrc::new("jr {x}", "0x30 @ (x - $)`8"),
         RuleSrc::new("jp {x}", "0x40 @ le(x`16)"),
         RuleSrc::new("st {x}", "0x50 @ x[7:0]"),
+        RuleSrc::new("lds {s: srcx}", "0x60 @ 0x0 @ s"),
     ]
+}
+
+/// operands with an expression parameter of their own (immediate / absolute)
+fn srcx_def() -> RuleDefSrc {
+    RuleDefSrc { name: Some("srcx".into()), sub: true, rules: vec![RuleSrc::new("#{v: u8}", "0x1 @ v"), RuleSrc::new("{v: u8}", "0x2 @ v")] }
 }
 
 const MNEMONICS: [&str; 5] = ["ld", "ldw", "jr", "jp", "st"];
@@ -34,6 +40,10 @@ fn inner_forms() -> Vec<String> {
         for o in OPERANDS {
             v.push(format!("{} {}", m, o));
         }
+    }
+    // through a sub-rule with its own expression parameter
+    for o in ["#l", "#{p}", "l", "#G", "#$"] {
+        v.push(format!("lds {}", o));
     }
     v
 }
@@ -55,11 +65,12 @@ const PREFIXES: [&[&str]; 3] = [&[], &["nop"], &["ld 7", "nop"]];
 const SUFFIXES: [&[&str]; 2] = [&[], &["ldw H"]];
 
 fn uses_l(body: &[String]) -> bool {
-    body.iter().any(|b| b.ends_with(" l"))
+    body.iter().any(|b| b.ends_with(" l") || b.ends_with("#l"))
 }
 
 fn render_macro(c: &MacroCase) -> String {
-    let mut s = String::from("#ruledef\n{\n");
+    let mut s = srcx_def().render();
+    s += "#ruledef\n{\n";
     for r in base_rules() {
         s += &format!("    {} => {}\n", r.pattern, r.prod);
     }
@@ -99,7 +110,7 @@ fn inlined_prog(c: &MacroCase) -> Prog {
     for x in c.prefix {
         items.push(Item::Instr(x.to_string()));
     }
-    let sub = |b: &str| -> String { b.replace("{p}", c.args.0).replace("{q}", c.args.1).replace(" l", " zl_0") };
+    let sub = |b: &str| -> String { b.replace("{p}", c.args.0).replace("{q}", c.args.1).replace(" l", " zl_0").replace("#l", "#zl_0") };
     for (i, b) in c.body.iter().enumerate() {
         if uses_l(&c.body) && i == c.label_pos {
             items.push(Item::Label("zl_0".into()));
@@ -114,7 +125,7 @@ fn inlined_prog(c: &MacroCase) -> Prog {
     }
     items.push(Item::Label("H".into()));
     items.push(Item::Data(Some(8), vec!["0xff".into()]));
-    Prog { ruledefs: vec![RuleDefSrc { name: None, sub: false, rules: base_rules() }], items }
+    Prog { ruledefs: vec![srcx_def(), RuleDefSrc { name: None, sub: false, rules: base_rules() }], items }
 }
 
 fn judge_macro(c: &MacroCase, l: &mut Local) {
@@ -186,7 +197,7 @@ fn judge_cascade(body: &[String], label_pos: usize, args: (&'static str, &'stati
     let c = MacroCase { body: body.to_vec(), label_pos, typed: false, args, prefix, suffix: SUFFIXES[0], nest: 0 };
     let msrc = render_macro(&c).replace("    nop => 0x00\n", "    nop => 0x00\n    jmp {a} => { assert(a < 4), 0xa @ a`4 }\n    jmp {a} => 0xb0 @ a`8\n");
     let mut inl = inlined_prog(&c);
-    inl.ruledefs = vec![RuleDefSrc { name: None, sub: false, rules: cascade_rules() }];
+    inl.ruledefs = vec![srcx_def(), RuleDefSrc { name: None, sub: false, rules: cascade_rules() }];
     l.eval();
     let mo = run::assemble_str(&msrc, &Opts::iters(budget));
     l.nontrivial(&(&msrc, budget));
@@ -209,7 +220,7 @@ fn judge_cascade(body: &[String], label_pos: usize, args: (&'static str, &'stati
             None
         } else if s == "nop" {
             Some(8)
-        } else if s.starts_with("ldw ") || s.starts_with("jp ") {
+        } else if s.starts_with("ldw ") || s.starts_with("jp ") || s.starts_with("lds ") {
             Some(24)
         } else {
             Some(16)
@@ -350,9 +361,10 @@ fn judge_fn(tree: &E, args: (&str, &str), l: &mut Local) {
 /// behind an instruction whose size shrinks after the first pass: call == body with arguments bound
 fn fn_in_rules_cases() -> Vec<(String, String)> {
     let head = "#ruledef\n{\n    jmp {a} => { assert(a < 4), 0xa @ a`4 }\n    jmp {a} => 0xb0 @ a`8\n    nop => 0x00\n";
-    let with_fn = "    pos => 0xaa @ here()`8\n    dist {t} => 0xbb @ d(t)`8\n    far => 0xcc @ lab()`8\n}\n#fn here() => $\n#fn d(t) => $ - t\n#fn lab() => E\n";
-    let inlined = "    pos => 0xaa @ ($)`8\n    dist {t} => 0xbb @ ($ - t)`8\n    far => 0xcc @ (E)`8\n}\n";
-    let items = ["jmp E", "jmp 2", "pos", "dist E", "dist 0", "far", "nop", "#d8 here()|#d8 $", "E:"];
+    // `ldk`: the rule has a parameter named like the global constant the function body reads
+    let with_fn = "    pos => 0xaa @ here()`8\n    dist {t} => 0xbb @ d(t)`8\n    far => 0xcc @ lab()`8\n    ldk {k: u8}, {v: u8} => 0xa0 @ k @ addk(v)`8\n}\n#fn here() => $\n#fn d(t) => $ - t\n#fn lab() => E\n#fn addk(v) => v + k\nk = 0x10\n";
+    let inlined = "    pos => 0xaa @ ($)`8\n    dist {t} => 0xbb @ ($ - t)`8\n    far => 0xcc @ (E)`8\n    ldk {k2: u8}, {v: u8} => 0xa0 @ k2 @ (v + k)`8\n}\nk = 0x10\n";
+    let items = ["jmp E", "jmp 2", "pos", "dist E", "dist 0", "far", "nop", "#d8 here()|#d8 $", "E:", "ldk 1, 2"];
     let k = items.len() as u64;
     let mut out = vec![];
     for i in 0..seq_count(k, 4) {
